@@ -124,3 +124,35 @@ func TestSplitWithTokenLimitAndDefaultRatio(t *testing.T) {
 		}
 	}
 }
+
+// C13 / R13.11: when the overlap taken from the end of the previous chunk exceeds MaxOverlap it was cut down by keeping
+// its FIRST sentences (or its first MaxOverlap bytes), so what was prepended to the next chunk was a piece from the
+// middle of the previous chunk, not its end.
+func TestTruncatedOverlapIsStillASuffix(t *testing.T) {
+	prev := "Alpha comes first here. Beta stands in the middle. Gamma closes the chunk."
+	og := rag.NewOverlapGeneratorWithConfig(rag.OverlapConfig{Strategy: rag.OverlapSentence, Size: 3, MaxOverlap: 55, PreserveWords: true})
+	ov := og.GenerateOverlap(prev)
+	if ov.Text == "" || !strings.HasSuffix(prev, ov.Text) {
+		t.Errorf("sentence overlap %q is not a suffix of the previous chunk", ov.Text)
+	}
+	og = rag.NewOverlapGeneratorWithConfig(rag.OverlapConfig{Strategy: rag.OverlapCharacter, Size: 40, MaxOverlap: 20, PreserveWords: true})
+	long := "one two three four five six seven eight nine ten eleven twelve thirteen fourteen"
+	ov = og.GenerateOverlap(long)
+	if ov.Text == "" || !strings.HasSuffix(long, ov.Text) {
+		t.Errorf("overlap %q cut down to MaxOverlap is not a suffix of the previous chunk", ov.Text)
+	}
+}
+
+// C13 / R13.3: ApplyOverlapToChunks writes the overlapped text back into the chunk it was given and takes the next
+// overlap from that chunk, so a chunk shorter than the overlap size hands on text it inherited, not its own.
+func TestOverlapComesFromThePreviousChunksOwnText(t *testing.T) {
+	chunks := []*rag.Chunk{
+		{ID: "0", Text: "The first chunk talks about apples and pears at some length."},
+		{ID: "1", Text: "Tiny."},
+		{ID: "2", Text: "The third chunk is about something else entirely."},
+	}
+	out := rag.ApplyOverlapToChunks(chunks, rag.OverlapConfig{Strategy: rag.OverlapCharacter, Size: 30, MaxOverlap: 100, PreserveWords: true})
+	if got := out[2].OverlapPrefix; !strings.HasSuffix("Tiny.", got) || got == "" {
+		t.Errorf("the overlap given to chunk 2 is %q, which is not a suffix of chunk 1's own text \"Tiny.\"", got)
+	}
+}
